@@ -65,6 +65,12 @@ claims.update({
     text="HashToScalar with symbolic msg/DST: per DST length class the 48 expander bytes must equal the RFC 9380 5.3.1 term and the scalar must be OS2IP(those bytes) mod n (a + b·2^192 with the code's Montgomery constants, compared at byte granularity); empty DST panics before hashing. Level 'other': SHA-256 and Fiat word arithmetic trusted.",
     note="Not decided: crypto/sha256, Fiat word-level arithmetic.", ref="3 C09"),
 })
+EXTRA = " Also checked as part of this property's argument (static, structural): the Fiat-generated primitives reachable from its entry points are intact (E8: sibling data-flow cross-check of the two generated files, final conditional subtraction of each primitive, equal consecutive reduction rounds), the value types carry no state beyond the value fields the analysis ranges over, and every package-level variable referenced from its entry points is neither written outside init nor handed out by reference."
+for k in ["C01", "C02", "C03", "C04", "C05", "C06", "C07", "C08", "C09", "C11", "C13", "C14", "C18"]:
+    claims[k]["text"] += EXTRA
+claims["C19"]["text"] += " C13's whole-value obligations for Equal/IsZero/IsOne are inherited (the IsOne exemption rests on them); an operand selected by a secret index among at most 16 table entries, or by a secret condition between two pointers, is followed for every alternative and the calls through it must have equal traces."
+claims["C16"]["text"] += " No function may return memory of an object it hands back to a sync.Pool (use after Put)."
+claims["C17"]["text"] += " The rule is repeated under every custom build tag the module's own files mention; one-shot digest functions of an imported hash package count as direct uses."
 pending = {}
 ids = ["C%02d" % i for i in range(1, 20)]
 checks = []
